@@ -326,7 +326,7 @@ namespace {
         int nparties = (int) ctx.params.set("c07.parties", r.range(2, 6));
         int64_t os_mask = ctx.params.set("c07.os_mask", OsOk && r.chance(1, 2) ? (int64_t) r.below(64) : 0);
         if (!ctx.program_from_replay) ctx.program = gen(ctx, nparties, HasStop);
-        sim_config sc = draw_sim_config(ctx, 60000, FAULT_STALL | FAULT_CLOCKJUMP | FAULT_TRYFAIL);
+        sim_config sc = draw_sim_config(ctx, 60000, FAULT_STALL | FAULT_CLOCKJUMP | FAULT_TRYFAIL | FAULT_SPURIOUS);
         begin_sim(ctx, sc);
         g_dump_hook = +[]() -> std::string {
             std::string s = pk::dump() + sfmt(" | cv model: gen=%lld waits:", (long long) S.gen);
